@@ -153,7 +153,7 @@ impl<T> Default for Rope<T> {
 
 impl<T> Rope<T> {
     pub fn new() -> Self {
-        Self(Vec::from([slots::ArrayMap::new()]))
+        Self(Vec::new())
     }
 
     pub fn iter(&self) -> Iter<'_, T> {
